@@ -41,6 +41,7 @@ type Fault struct {
 	CT      string `json:"content_type,omitempty"`
 	Body    []byte `json:"-"`                // overrides the origin-tagged body
 	GapUS   int    `json:"gap_us,omitempty"` // pause between the body writes
+	StallMS int    `json:"stall_ms,omitempty"` // how long a stalling backend holds on (default 1500)
 	Gzip    bool   `json:"gzip,omitempty"`   // the backend answers with Content-Encoding: gzip (the body bytes are what they are)
 }
 
@@ -202,6 +203,9 @@ func (f *FW) answer(i int, r *backend.Record) *backend.Resp {
 		at.Wrote, at.Completed = len(resp.Body), true
 	case "reset_before_headers", "eof_before_headers", "garbage", "stall_before_headers":
 		resp = &backend.Resp{Fault: ft.Kind, MaxStall: 1500 * time.Millisecond}
+		if ft.StallMS > 0 {
+			resp.MaxStall = time.Duration(ft.StallMS) * time.Millisecond
+		}
 		at.Status = 0
 	case "cut_close", "cut_reset", "cut_stall":
 		resp.Fault = ft.Kind
